@@ -157,12 +157,12 @@ pub(crate) mod verif_common {
         }
         if class == 0 {
             assert!(fa == 1 && ok_arg, "[C01 C04 C05 C09 std-one-rmw] a pull performs exactly one fetch_add(n) on its counter");
-            assert!(other_rmw == 0 && stores == 0, "[C01 C04 C05 C10 std-no-other-write] a pull performs no other write (store / swap / fetch_sub) on its counter");
+            assert!(other_rmw == 0 && stores == 0, "[C01 C04 C05 C06 C10 C11 std-no-other-write] a pull performs no other write (store / swap / fetch_sub) on its counter");
         } else if class == 1 {
             assert!(fa == 0 && other_rmw == 0 && stores == 0, "[C11 C10 C01 std-query-readonly] a length query / conversion never writes the counter");
         } else {
-            assert!(stores == 1 && ok_skip, "[C06 std-skip-write] skip_to_end performs exactly one write of a value at or past the end");
-            assert!(fa == 0 && other_rmw == 0, "[C06 C01 std-skip-no-rmw] skip_to_end performs no fetch_add / fetch_sub");
+            assert!(stores == 1 && ok_skip, "[C05 C06 C11 std-skip-write] skip_to_end performs exactly one write of a value at or past the end");
+            assert!(fa == 0 && other_rmw == 0, "[C05 C06 C11 C01 std-skip-no-rmw] skip_to_end performs no fetch_add / fetch_sub");
         }
     }
 
